@@ -2,47 +2,52 @@
 """Writes MANIFEST.json from the tables below (kept in one place so it stays schema-valid)."""
 import json, subprocess
 
+KANI = "bounded model checking (Kani/CBMC SAT) of the real rscel functions with symbolic operands against a specification oracle"
+MIRSYM = "symbolic execution of rustc's MIR for the real functions (own executor + z3): all paths within the bounds, UNSAT query per obligation, native replay of counterexamples"
+BOTH = KANI + "; and " + MIRSYM
+
+# property -> (claim text, DESIGN section, engines)
 CLAIMED = {
-    "C01": ("Totality of the value-level kernels: every operator entry point on every ordered pair of scalar kinds, every scalar built-in/constructor reached directly, and the VM jump check return a value or an error value for ALL payloads (no panic, overflow trap, out-of-bounds, unwrap). Source text -> tokenizer/parser/compiler, the VM loop, macros, program references and stack exhaustion are outside (DESIGN 3/C01).", "3/C01"),
-    "C03": ("+ - * and unary - on int/uint/double/bool operands are compared with a mathematical oracle for ALL 64-bit payloads (one UNSAT proof per operator x kind pair); / and %: error predicate full width, quotient/remainder exactness for |a|,|b| < 2^15 plus a boundary set; every non-numeric pairing must be an error.", "3/C03"),
-    "C04": ("Complement, symmetry, reflexivity, trichotomy, <=/>= unions, mathematical int/uint order, nearest-double comparison, 'unrelated kinds fail', transitivity on triples - for all payloads of scalars, strings/bytes <= 2 bytes, durations, timestamps. sort/min/max are outside.", "3/C04"),
-    "C05": ("Value-level clauses only: one truthiness table across !, ||, &&, bool(), is_truthy and the absorption rules of ||/&& for every ordered pair of kinds, all payloads. Laziness, ?:, match and JmpCond live in the compiler/VM and are outside.", "3/C05"),
-    "C06": ("String/bytes clauses only: concatenation preserves every byte in order, size is the UTF-8 byte count, `in`/index on scalar containers fail. Lists and maps are outside.", "3/C06"),
-    "C10": ("Last sentence only: the VM's jump check accepts exactly the targets inside the block or at its end, for all (pc, dist, len). Well-formedness of compiler output is outside.", "3/C10"),
-    "C12": ("JSON clause, scalar part only: serde_json numbers (all i64, u64, f64), bools, null, short strings convert to the same CelValue as direct binding, never panicking. Name resolution, program references and the depth bound are outside.", "3/C12"),
-    "C14": ("Scalar conversions through construct_type for all payloads: int/uint/double/bool/dyn/type, range errors instead of wrapped values, truncation toward zero with saturation, type(T(x)) == T, bytes<->string on <= 2 bytes, arity errors. String<->number round trips and f-strings are outside.", "3/C14"),
-    "C15": ("Math family through the dispatch entry points for all payloads: abs, sqrt, ceil/floor/round, lg/log (error instead of panic outside the domain), pow exponent validity (all values) and exact value for exponents <= 4 (8 thorough), arity/type errors; splitAt range clause on two concrete receivers. String/regex family is outside.", "3/C15"),
-    "C16": ("Timestamp/duration arithmetic: exact result or error outside the representable range (never a panic) for all instants/durations; duration algebra d1+d2-d2==d1; duration accessors; chronological order. Calendar accessors, zones, uomConvert are outside.", "3/C16"),
+    "C01": ("Totality (a value or an error, never a panic) of: every operator entry point on every ordered pair of scalar kinds, every scalar built-in/constructor reached directly, the VM jump check (Kani, all payloads); and of one run of the bytecode VM on every instruction template and of every macro body driver (mirsym: no path of run_raw / the macro functions reaches a panic, for all operand values). Source text -> tokenizer/parser/compiler and stack exhaustion are outside.", "3/C01", "both"),
+    "C03": ("+ - * and unary - on int/uint/double/bool operands are compared with a mathematical oracle for ALL 64-bit payloads (one UNSAT proof per operator x kind pair); / and %: error predicate full width, quotient/remainder exactness for |a|,|b| < 2^15 plus a boundary set; every non-numeric pairing must be an error (Kani). The VM applies each arithmetic opcode to (first pushed, second pushed) in that order, for bound and literal operands alike (mirsym, vm_binops).", "3/C03", "both"),
+    "C04": ("Complement, symmetry, reflexivity, trichotomy, <=/>= unions, mathematical int/uint order, nearest-double comparison, 'unrelated kinds fail', transitivity on triples - for all payloads of scalars, strings/bytes <= 2 bytes, durations, timestamps (Kani); the VM applies each relational opcode to its operands in source order (mirsym). sort/min/max are outside.", "3/C04", "both"),
+    "C05": ("One truthiness table across !, ||, &&, bool(), is_truthy and the absorption rules of ||/&& for every ordered pair of kinds, all payloads (Kani). VM side (mirsym): Test keeps a failure and otherwise yields the truthiness; JmpCond pops its condition, jumps iff Bool == when, treats a failing condition as 'false', rejects other kinds; stack effects of Dup/Pop/Not/Neg. The compiler's templates for ||, &&, ?: and match (which instruction sequences are emitted) are outside.", "3/C05", "both"),
+    "C06": ("String/bytes concatenation, size, `in`/index on scalar containers, one-element lists (Kani). VM side (mirsym): MkList(n) builds the list of the last n pushed values in push order, MkDict(n) pairs keys with values and rejects non-string keys, Index/In apply their operation to (container, index) in that order, `m.k` returns the stored field before any method of that name and an absent-field failure otherwise. List indexing arithmetic over symbolic lists and the compile-time literal construction are outside.", "3/C06", "both"),
+    "C07": ("all / exists / exists_one / filter / map (2 and 3 arguments, lists and maps) / reduce: for every list length 0..=3 and every combination of per-element body outcomes (truthy, falsy, failing with any error kind) the value returned equals the defining fold and the body is evaluated exactly on the expected elements, in order, each under a binding of the loop variable to that element on an interpreter built from clones of the caller's contexts, stopping at the first deciding or failing element. What `run_raw` does with a body is outside (it is an arbitrary result here).", "3/C07", "mirsym"),
+    "C08": ("has(e): true when e evaluates, false exactly for unbound-variable / absent-field failures, every other failure propagated unchanged; coalesce(e1..en), n <= 5: first result that is neither null nor absent, arguments evaluated left to right on the caller's interpreter and none after the chosen one, other failures propagated, null otherwise - for every combination of argument outcomes. Which failures the VM classifies as unbound/absent is covered for identifiers and map fields by the VM targets (C12/C06).", "3/C08", "mirsym"),
+    "C10": ("The VM's jump check accepts exactly the targets inside the block or at its end, for all (pc, dist, len) (Kani); Jmp/JmpCond in the real VM loop land on the checked target or fail, for all distances (mirsym). Well-formedness of compiler output is outside.", "3/C10", "both"),
+    "C12": ("JSON scalars convert to the same CelValue as direct binding (Kani). VM side (mirsym): an identifier operand resolves to a type name, then a bound variable, then a stored program run on the same interpreter, else an unbound-name failure; in call position a bound function wins over a macro over a type constructor, arguments keep source order, bytecode arguments are evaluated for functions and passed unevaluated to macros; a map field wins over a method; the call-depth counter is incremented on entry, bounds the depth (must run at depth <= 16, must fail beyond 128) and is restored on every exit path. Re-binding, re-adding programs and depth through macro bodies are outside.", "3/C12", "both"),
+    "C14": ("Scalar conversions through construct_type for all payloads: int/uint/double/bool/dyn/type, range errors instead of wrapped values, truncation toward zero with saturation, type(T(x)) == T, bytes<->string on <= 2 bytes (Kani); FmtString(n) concatenates its n string segments in source order and fails on a non-string segment (mirsym). String<->number round trips and the f-string lowering in the compiler are outside.", "3/C14", "both"),
+    "C15": ("Math family through the dispatch entry points for all payloads: abs, sqrt, ceil/floor/round, lg/log (error instead of panic outside the domain), pow exponent validity (all values) and exact value on bounded bases/exponents. String/regex family is outside.", "3/C15", "kani"),
+    "C16": ("Timestamp/duration arithmetic: exact result or error outside the representable range (never a panic) on windows of instants with all durations; duration algebra d1+d2-d2==d1; duration accessors; chronological order; UTC calendar accessors against an independent civil-from-days computation. Zones and uomConvert are outside.", "3/C16", "kani"),
 }
 
 NA = {
-    "C02": "parser precedence/associativity: the recursive-descent parser cannot be executed symbolically (HashMap/SipHash in BindContext::for_compile and ProgramDetails, boxed AST, Kani ICE on regex-automata); no scalar kernel to isolate (DESIGN 3/C02, probes 18-19).",
-    "C07": "comprehension macros clone both contexts (HashMaps) and re-enter the VM loop per element; neither a one-entry HashMap nor a three-instruction run_raw finishes under Kani (probes 12-15).",
-    "C08": "has()/coalesce() classification is only reachable through Interpreter::run_raw on an argument block; the VM loop is not encodable within reach (probe 15).",
-    "C09": "needs the compiler (probes 18-19) and the VM (probes 13-15) side by side; neither is encodable. The shared value operations are decided under C03-C06.",
-    "C11": "operation histories over HashMap-backed contexts (probes 12, 19); Kani does not model threads; the known nondeterminism is HashMap RandomState, which is exactly what is intractable.",
-    "C13": "tokenizer cannot be executed symbolically even on \"\\xHH\" (std String/radix/float-parsing loops, probes 16-17); the IntLit->i64 narrowing sits inside the parser.",
-    "C17": "ProgramDetails (HashSet<String>) is produced only by the compiler, which is out of reach (probes 18-19).",
-    "C18": "spans come from tokenizer + parser on source text; std string routines and the parser are not encodable within reach (probes 16-18).",
+    "C02": "parser precedence/associativity: the recursive-descent parser cannot be executed symbolically by either engine (Kani: HashMap/SipHash, boxed AST, ICE on regex-automata; mirsym: 1400 lines of parser MIR driving a tokenizer over std string routines with no summaries); the one VM-side anchor (operand order on the stack) is decided under C03/C04.",
+    "C09": "needs the compiler's constant folder (compile! macro, check_for_const) side by side with the VM on the same expression; the compiler is not encodable by either engine. The shared value operations are decided under C03-C06 and the VM's use of them under the vm_* targets.",
+    "C11": "operation histories over HashMap-backed contexts and threads; Kani does not model threads, and HashMap iteration order (RandomState) is exactly what is intractable. mirsym shows for the macros that evaluation happens on clones of the caller's contexts (C07) but histories of the public API are not explored.",
+    "C13": "tokenizer cannot be executed symbolically even on \"\\xHH\" under Kani (std String/radix/float-parsing loops); mirsym has no summaries for the std string routines it is built from; the IntLit->i64 narrowing sits inside the parser.",
+    "C17": "ProgramDetails (HashSet<String>) is produced only by the compiler, which is out of reach of both engines.",
+    "C18": "spans come from tokenizer + parser on source text; not encodable within reach.",
     "C19": "serde_json/bincode visitors over heap trees (Program, Vec<ByteCode>, HashSet); nothing of it is a scalar kernel.",
-    "C20": "translation walks the parser's boxed AST, which cannot be built without the parser; string formatting is the subject, so the fmt stub cannot be used.",
+    "C20": "translation walks the parser's boxed AST, which cannot be built without the parser; string formatting is the subject.",
 }
 
 def main():
     commits = subprocess.run(["git", "-C", "/repo", "log", "--format=%H %s"], capture_output=True, text=True).stdout.splitlines()
     hook_commits = [c.split()[0] for c in commits if "verif hooks" in c]
     checks = []
-    for pid, (text, ref) in CLAIMED.items():
+    for pid, (text, ref, eng) in CLAIMED.items():
         checks.append({
             "property_id": pid,
             "quick_cmd": f"./check {pid} --tier quick",
             "thorough_cmd": f"./check {pid} --tier thorough",
             "evidence_file": f"/verif/evidence/{pid}.json",
             "replay_cmd_template": f"./check {pid} --replay {{path}}",
-            "engine": "kani",
+            "engine": {"kani": "kani", "mirsym": "mirsym", "both": "kani+mirsym"}[eng],
             "level_claimed": {"category": "model_checking", "text": text, "design_ref": f"DESIGN.md section {ref}"},
-            "level_note": "Bounded: operand kinds concrete per query, payloads fully symbolic (64-bit ints, all doubles, strings/bytes <= 2 bytes); Kani unwinding assertions on. Trusted: Kani 0.68 MIR->GOTO, CBMC 6.11, CaDiCaL, Rust core integer/float primitives used by the oracles. Stub: alloc::fmt::format -> empty string. Features: type_prop, neg_index, verif_hooks; protobuf off. Every counterexample is replayed against the native dev and release builds before it is reported.",
-            "technique": "bounded model checking (Kani/CBMC SAT) of the real rscel functions with symbolic operands against a specification oracle",
+            "level_note": ("" if eng == "kani" else "mirsym: bounded symbolic execution of the MIR rustc emits for /repo's current source (features type_prop, neg_index; no hooks): lists <= 3 elements, <= 5 macro arguments, fixed instruction templates with symbolic operands, depth counter 0..=200; std containers follow the summaries in mirsym/models.py, value operations/bodies/lookups are uninterpreted (listed per run in the evidence); counterexamples are confirmed natively (public API / real VM against a reference using the real value operations) before they are reported. Trusted: rustc's MIR, the executor in /verif/mirsym, z3. ") + ("" if eng == "mirsym" else "Kani: ") + ("" if eng == "mirsym" else "Bounded: operand kinds concrete per query, payloads fully symbolic (64-bit ints, all doubles, strings/bytes <= 2 bytes); Kani unwinding assertions on. Trusted: Kani 0.68 MIR->GOTO, CBMC 6.11, CaDiCaL, Rust core integer/float primitives used by the oracles. Stub: alloc::fmt::format -> empty string. Features: type_prop, neg_index, verif_hooks; protobuf off. Every counterexample is replayed against the native dev and release builds before it is reported."),
+            "technique": {"kani": KANI, "mirsym": MIRSYM, "both": BOTH}[eng],
         })
     m = {
         "version": 1,
@@ -55,9 +60,14 @@ def main():
             "add_only": True,
         },
         "engines": [{
+            "name": "mirsym",
+            "path": "/verif/mirsym",
+            "serves_properties": sorted(k for k, v in CLAIMED.items() if v[2] != "kani"),
+            "kind_free_text": "symbolic executor for rustc MIR (python + z3): dumps the MIR of /repo's rscel crate on every run, executes the target functions path by path with symbolic inputs, std containers by summaries, value operations uninterpreted; specifications are reference semantics (defining folds of the macros, a reference stack machine for the VM) discharged per path by UNSAT queries",
+        }, {
             "name": "kani",
             "path": "/verif/kani",
-            "serves_properties": sorted(CLAIMED),
+            "serves_properties": sorted(k for k, v in CLAIMED.items() if v[2] != "mirsym"),
             "kind_free_text": "Kani 0.68 proof harnesses (external crate, path dependency on /repo/rscel) generated from /verif/harnesses.py; driver /verif/check runs cargo kani, parses the JSON export, replays counterexamples natively",
         }],
         "checks": checks,
